@@ -577,7 +577,7 @@ def shared_a10(ctx):
 
 def rank_decode(ctx):
     ob = ctx.ob("C02.6", "rank decode: cs_n is decoded from the top rankbits of cmd.ba and the DFI bank from the remaining bits (partition of "
-                         "ba); all ranks are selected for STEER_REFRESH on the phase on which the multiplexer issues the refresher's commands", 3)
+                         "ba); all ranks are selected for STEER_REFRESH on the phase on which the multiplexer issues the refresher's commands", 2)
     v = mux_view(ctx, 2)
     multi = v.variant_map({"log2_int(len(dfi.p0.cs_n))": True, "log2_int(len(dfi.p1.cs_n))": True})
     f = v.fsms("")[0]
@@ -588,39 +588,60 @@ def rank_decode(ctx):
                 ref_phase = int(str(l.target)[len("steerer.sel["):-1])
     if not ob.need(ref_phase is not None, "phase on which STEER_REFRESH is selected not found"):
         return
+    # truth table of the extracted steerer (concrete evaluation of the HIR, lsa/ceval.py): 2 ranks x 4 banks, every selector value, every bank address of the
+    # selected command, every non-empty strobe combination.  Specification: a command that issues on phase i selects exactly its rank (cs_n = ~onehot(rank)),
+    # or every rank when it comes from the refresher on the phase the multiplexer steers refresh to, and phase.bank carries the bank bits.  Phases that issue
+    # nothing are unconstrained (NOP and DESELECT are both harmless).
+    from ..ceval import CEval
+    from ..bits import Unresolved
+    import itertools
     for i in range(2):
-        cs = multi.drivers("dfi.p%d.cs_n" % i)
-        override = [l for l in cs if is0(l.value) and any(p and isinstance(a, Op) and a.op == "==" and isinstance(a.args[1], Const) and a.args[1].v == 3
-                                                        for a, p in multi.guard_lits(l, False))]
-        ob.instance("phase %d cs_n drivers" % i, [str(l) for l in cs])
-        if i == ref_phase and not override:
-            ob.refute("all-ranks:p%d" % i, "refresh commands are steered to phase %d but cs_n there is not forced to all ranks under "
-                      "sel == STEER_REFRESH: only one rank would be refreshed" % i, cs[0].loc if cs else None)
-        for l in override:
-            extra = [lkey(x) for x in multi.guard_lits(l, False)
-                     if not (x[1] and isinstance(x[0], Op) and x[0].op == "==" and isinstance(x[0].args[1], Const) and x[0].args[1].v == 3)]
-            if i == ref_phase and extra:
-                ob.refute("all-ranks-conditional:p%d" % i, "all ranks are selected under sel == STEER_REFRESH only together with %s: the refresher also sends precharge-all "
-                          "(and ZQCS) through this selector, and those must reach every rank too - otherwise REFRESH hits a rank whose banks are still open" % extra, l.loc)
-        if i != ref_phase and override:
-            ob.refute("all-ranks-wrong-phase:p%d" % i, "all-ranks override sits on phase %d but refresh is steered to phase %d" % (i, ref_phase), override[0].loc)
-        dec = [l for l in multi.leaves if l.kind == "assign" and str(l.target).endswith(".i") and "rank_decoder" in str(l.target)
-               and "dfi.p%d" % i in " ".join(k for k, _, _ in l.cfg)]
         bank = multi.drivers("dfi.p%d.bank" % i)
-        rb = "log2_int(len(dfi.p%d.cs_n))" % i
-        okd = len(dec) == 1 and isinstance(dec[0].value, Op) and dec[0].value.op == "select" and \
-            all(isinstance(x, Op) and x.op == "slice" and key(x.args[1]) == "lin(-1*%s)" % rb and x.args[2] == Const(None) for x in dec[0].value.args[1:])
-        okb = len(bank) == 1 and isinstance(bank[0].value, Op) and bank[0].value.op == "select" and \
-            all(isinstance(x, Op) and x.op == "slice" and x.args[1] == Const(None) and key(x.args[2]) == "lin(-1*%s)" % rb for x in bank[0].value.args[1:])
-        ob.instance("phase %d rank/bank split" % i, {"rank": key(dec[0].value) if dec else None, "bank": key(bank[0].value) if bank else None})
-        if dec and bank and not (okd and okb):
-            ob.refute("rank-split:p%d" % i, "rank is decoded from %s and bank from %s: expected ba[-rankbits:] / ba[:-rankbits] (a partition "
-                      "of the bank address)" % (key(dec[0].value), key(bank[0].value)), dec[0].loc)
-        elif not (dec and bank):
-            ob.unknown("phase %d: rank decoder input or bank assignment not found" % i)
-        csn = [l for l in cs if not is0(l.value)]
-        if csn and not all(lkey(literal(l.value)).startswith("~") and "rank_decoder" in key(l.value) and key(l.value).endswith(".o") for l in csn):
-            ob.refute("cs-pol:p%d" % i, "cs_n is not the inverted one-hot rank decode: %s" % [key(l.value) for l in csn], csn[0].loc)
+        srcs = []
+        if len(bank) == 1 and isinstance(bank[0].value, Op) and bank[0].value.op == "select":
+            for x in bank[0].value.args[1:]:
+                names = sorted({str(y)[:-len(".ba")] for y in subterms(x) if isinstance(y, (Sym, Obj)) and str(y).endswith(".ba")})
+                srcs.append(names[0] if len(names) == 1 else None)
+        if not ob.need(len(srcs) == 4 and all(srcs), "phase %d: the four command sources of the steerer not identified from the bank select (%s)" % (i, srcs)):
+            continue
+        cfg = {"len(dfi.p%d.cs_n)" % j: 2 for j in range(2)}
+        cfg.update({"len(%s.ba)" % c_: 3 for c_ in srcs})
+        cfg.update({"len(dfi.p%d.bank)" % j: 3 for j in range(2)})     # the DFI bank field is as wide as the controller's bank address
+        nchk = 0
+        bad = None
+        try:
+            # the all-zero NOP record: a Record built locally in the multiplexer that nothing drives
+            idle = [n_ for n_, c_ in enumerate(srcs) if any(str(o_) == c_ and o_.cls == "Record" for o_ in multi.d.objs)
+                    and not any(multi.drivers(c_ + "." + f_) for f_ in ("ras", "cas", "we", "valid"))]
+            for k_, b_ in itertools.product(range(4), range(8)):
+                if k_ in idle:
+                    continue
+                for ras, cas, we in ((1, 0, 0), (0, 1, 0), (0, 0, 1), (1, 1, 0), (1, 0, 1), (0, 1, 1), (1, 1, 1)):
+                    env = {"steerer.sel[%d]" % j: (k_ if j == i else 0) for j in range(2)}
+                    for n_, c_ in enumerate(srcs):
+                        sel_ = n_ == k_
+                        env.update({c_ + ".ba": (b_ if sel_ else (b_ ^ 5)), c_ + ".valid": 1, c_ + ".ready": 1, c_ + ".ras": ras if sel_ else 0,
+                                    c_ + ".cas": cas if sel_ else 0, c_ + ".we": we if sel_ else 0, c_ + ".is_read": 0, c_ + ".is_write": 0, c_ + ".is_cmd": 1})
+                    ce = CEval(multi, env, cfg)
+                    got_cs = ce.nextval(Sym("dfi.p%d.cs_n" % i)) & 3
+                    got_bank = ce.nextval(Sym("dfi.p%d.bank" % i)) & 3
+                    exp_cs = 0 if (k_ == 3 and i == ref_phase) else (~(1 << (b_ >> 2)) & 3)
+                    nchk += 1
+                    if got_cs != exp_cs or got_bank != (b_ & 3):
+                        bad = bad or (k_, b_, (ras, cas, we), got_cs, exp_cs, got_bank)
+        except Unresolved as e:
+            ob.unknown("phase %d: steerer not evaluable (%s)" % (i, e))
+            continue
+        if not ob.need(nchk >= 3 * 8 * 7, "phase %d: only %d rows of the steerer truth table could be formed" % (i, nchk)):
+            continue
+        ob.instance("phase %d chip-select / bank truth table" % i, {"command sources": srcs, "rows checked": nchk, "refresh phase": ref_phase}, nontrivial=True)
+        if bad:
+            k_, b_, st_, got_cs, exp_cs, got_bank = bad
+            what = ("all ranks must be selected for a refresher command (ras,cas,we)=%s on phase %d" % (st_, i)) if exp_cs == 0 else \
+                ("rank %d must be selected and bank %d driven" % (b_ >> 2, b_ & 3))
+            ob.refute("all-ranks:p%d" % i if exp_cs == 0 else "rank-split:p%d" % i, "phase %d, selector %d (%s), bank address %s, strobes %s: cs_n becomes %s and bank %d, but %s "
+                      "(expected cs_n = %s): the command reaches the wrong rank / only one rank is precharged or refreshed" %
+                      (i, k_, srcs[k_], bin(b_), st_, format(got_cs, "02b"), got_bank, what, format(exp_cs, "02b")), bank[0].loc)
 
 
 def run(ctx):
